@@ -27,7 +27,15 @@ RULE = (
     "(thorough: the complete set of 66x255x255 for one codeword); triple errors: all 220 position triples x sampled "
     "(v1, v2) x ALL 255 third values; all ordered pairs of distinct standard masks.  Distinct by construction in the "
     "enumerations, by hash in the Hypothesis parts.  Non-trivial: messages with >= 2 non-zero symbols; every error pattern; "
-    "products with both operands >= 2."
+    "products with both operands >= 2.  Interleaved histories: judged generate / check / multiply operations with stimulus in "
+    "between - calls of the same module that are rightly refused (15 unusable mask shapes, 16 wrong data shapes incl. list "
+    "messages with an octet out of range at position k = refused in the middle of the division, operands out of range for the "
+    "field helpers), rightly negative (check of a word with 1..3 wrong symbols / under another mask), accepted outside the "
+    "judged domain, or ordinary calls on near twins (same message under another mask; same mask, message differing in the "
+    "first / last / one octet, trailing / leading zeros); complete over the stimulus shapes x 7 judged operations (directed) plus "
+    "seeded random histories of 2..9 operations; retained results are compared with their snapshots at the end and every "
+    "(message, mask) pair used is generated and checked once more; non-trivial = a judged operation follows a stimulus, or near "
+    "twins.  The same stimuli serve as the module's prelude (prelude_for) for every 8th case of all other sub-checks."
 )
 ASSUMPTIONS = [
     "reference GF(2^8) arithmetic by shift-and-add modulo 0x11D; g(x) = (x+a)(x+a^2)(x+a^3), a = 2 (self-test: equals the "
@@ -41,6 +49,9 @@ ASSUMPTIONS = [
     "generate / check_word case is repeated with the containers the unchanged tree accepts and gets right (probed 2026-09: "
     "message / word as bytes or bytearray, mask as bytes, bytearray or memoryview; memoryview / list / tuple messages raise "
     "TypeError today and are not generated)",
+    "interleaved / preludes: a stimulus (refused call, negative check, out-of-domain argument, helper with operands out of "
+    "range) is never judged - only generate / check / multiply on 9- / 12-octet inputs with 3-octet masks around it are; a worker "
+    "stops after its first failing history so that every reported history is self-contained (replays in a fresh interpreter)",
 ]
 
 STD_MASKS = {"none": "000000", "VoiceLCHeader": "969696", "TerminatorWithLC": "999999"}
@@ -563,6 +574,350 @@ def drv_mask_change(ctx: Ctx, sub: SubCheck):
             ctx.tally.case(sub.name, key={"msg": m, "mask": k, "other": k2}, nontrivial=True, cls="standard_mask_pair")
 
 
+# ---------------------------------------------------------------------------------------------- interleaved histories (round 7)
+#
+# Stimulus = every way of calling reed_solomon_12_9_4.py that is not "generate a word for a 9-octet message and a 3-octet mask /
+# check a 12-octet word under a 3-octet mask": calls that are rightly refused (a mask that cannot be indexed: None, an int, the
+# CrcMasks member itself, too short; data of the wrong length or type; a list message with an octet out of range at position k,
+# which is refused in the middle of the division), calls with a rightly negative answer (check of a corrupted word / under
+# another mask), accepted out-of-domain arguments (a 4-octet mask, list masks), the field helpers with operands out of
+# range, and ordinary calls on near twins (same message under another mask, same mask and a message that differs in one
+# octet).  Nothing is claimed about a stimulus; the judged operations around it must not notice it.
+
+
+def _masks_enum():
+    from okdmr.dmrlib.etsi.layer2.elements.crc_masks import CrcMasks
+
+    return CrcMasks
+
+
+_BAD_MASKS = ["none", "int", "enum", "empty", "one", "two", "four", "str", "list_ok", "list_oob", "list_none", "list_float", "tuple", "bytes_obj_hex", "dict"]
+_BAD_DATA = ["len0", "len8", "len10", "len12", "len18", "str", "none", "int", "list", "tuple", "list_oob", "list_neg", "list_none", "memoryview", "bytearray", "bits"]
+_BAD_WORD = ["len0", "len9", "len11", "len13", "len24", "str", "none", "list", "list_oob", "list_none", "memoryview"]
+_MUL_BAD = ["a256", "b256", "a_neg", "b_neg", "float", "none", "str", "bool", "huge", "valid", "zero"]
+_XOR_BAD = ["short_mask", "long_mask", "none", "str", "ints", "valid"]
+RS_STIM_KINDS = ["gen_bad_mask", "chk_bad_mask", "gen_bad_data", "chk_bad_data", "chk_false", "chk_true", "gen_twin", "mul_bad", "xor_bad"]
+
+
+def _bad_mask(mask: bytes, how: str):
+    return {
+        "none": lambda: None, "int": lambda: mask[0], "enum": lambda: _masks_enum().VoiceLCHeader, "empty": lambda: b"", "one": lambda: mask[:1],
+        "two": lambda: mask[:2], "four": lambda: mask + b"\x5a", "str": lambda: mask.hex(), "list_ok": lambda: list(mask), "list_oob": lambda: [mask[0], 256 + mask[1], mask[2]],
+        "list_none": lambda: [mask[0], None, mask[2]], "list_float": lambda: [float(x) for x in mask], "tuple": lambda: tuple(mask), "bytes_obj_hex": lambda: mask.hex().encode(), "dict": lambda: {0: 1},
+    }[how]()
+
+
+def _bad_data(raw: bytes, how: str, pos: int):
+    """raw: 9 or 12 octets"""
+    n = len(raw)
+    pos %= n
+    return {
+        "len0": lambda: b"", "len8": lambda: raw[:8], "len9": lambda: raw[:9], "len10": lambda: (raw + raw)[:10], "len11": lambda: raw[:11], "len12": lambda: (raw + raw)[:12],
+        "len13": lambda: (raw + raw)[:13], "len18": lambda: (raw + raw)[:18], "len24": lambda: (raw + raw)[:24], "str": lambda: raw.hex()[:n], "none": lambda: None, "int": lambda: len(raw),
+        "list": lambda: list(raw), "tuple": lambda: tuple(raw), "list_oob": lambda: list(raw[:pos]) + [256 + raw[pos]] + list(raw[pos + 1 :]),
+        "list_neg": lambda: list(raw[:pos]) + [-1 - raw[pos]] + list(raw[pos + 1 :]), "list_none": lambda: list(raw[:pos]) + [None] + list(raw[pos + 1 :]),
+        "memoryview": lambda: memoryview(raw), "bytearray": lambda: bytearray(raw), "bits": lambda: "".join(format(x, "08b") for x in raw),
+    }[how]()
+
+
+def rs_twin(msg: bytes, kind: str, pos: int = 0) -> bytes:
+    m = bytearray(msg)
+    if kind == "last_octet":
+        m[8] ^= 1 + pos % 255
+    elif kind == "first_octet":
+        m[0] ^= 1 + pos % 255
+    elif kind == "one_octet":
+        m[pos % 9] ^= 0x80 >> (pos % 8)
+    elif kind == "trailing_zeros":
+        for i in range(9 - 1 - pos % 8, 9):
+            m[i] = 0
+    elif kind == "leading_zeros":
+        for i in range(0, 1 + pos % 8):
+            m[i] = 0
+    elif kind == "reversed":
+        m.reverse()
+    return bytes(m)
+
+
+RS_TWIN_KINDS = ["same", "last_octet", "first_octet", "one_octet", "trailing_zeros", "leading_zeros", "reversed"]
+
+
+def rs_stim_call(msg: bytes, mask: bytes, op):
+    """(function, args) of the library call the abstract stimulus ``op`` stands for, on values derived from (msg, mask)"""
+    rs = RS()
+    k, how, pos = op["k"], op.get("how", ""), int(op.get("pos", 0))
+    word = bytes(gf256.rs_encode(list(msg), list(mask)))
+    if k == "gen_bad_mask":
+        return rs.generate, (msg, _bad_mask(mask, how or "none"))
+    if k == "chk_bad_mask":
+        return rs.check, (word, _bad_mask(mask, how or "none"))
+    if k == "gen_bad_data":
+        return rs.generate, (_bad_data(msg, how or "len8", pos), mask)
+    if k == "chk_bad_data":
+        return rs.check, (_bad_data(word, how or "len11", pos), mask)
+    if k == "chk_false":  # rightly negative: corrupted in 1..3 symbols, or under another mask
+        if how == "other_mask":
+            return rs.check, (word, bytes(x ^ (1 + pos % 255) for x in mask))
+        w = bytearray(word)
+        for j in range(1 + pos % 3):
+            w[(pos + 5 * j) % 12] ^= 1 + (pos * 7 + j) % 255
+        return rs.check, (bytes(w), mask)
+    if k == "chk_true":
+        return rs.check, (_octets(word, "bytearray" if how == "bytearray" else "bytes"), mask)
+    if k == "gen_twin":
+        other = bytes(x ^ (1 + pos % 255) for x in mask) if how == "other_mask" else mask
+        return rs.generate, (rs_twin(msg, how if how in RS_TWIN_KINDS else "same", pos), other)
+    if k == "mul_bad":
+        a, b = msg[pos % 9], mask[pos % 3]
+        return rs.log_multiply, {
+            "a256": (256 + a, b or 1), "b256": (a or 1, 256 + b), "a_neg": (-1 - a, b or 1), "b_neg": (a or 1, -1 - b), "float": (float(a or 1), b or 1), "none": (None, b or 1),
+            "str": ("%d" % a, b or 1), "bool": (True, b or 1), "huge": (10 ** 9 + a, b or 1), "valid": (a, b), "zero": (0, 256 + b),
+        }[how or "a256"]
+    if k == "xor_bad":
+        return rs.xor_bytes, {
+            "short_mask": (word[9:], mask[:2]), "long_mask": (word[9:], mask + mask), "none": (word[9:], None), "str": (word[9:].hex(), mask), "ints": (list(word[9:]), [300, -1, None]), "valid": (word[9:], mask),
+        }[how or "short_mask"]
+    raise HarnessError(f"unknown stimulus {k}")
+
+
+def rs_run_stim(msg: bytes, mask: bytes, op):
+    fn, args = rs_stim_call(msg, mask, op)
+    try:
+        res = fn(*args)
+    except (KeyboardInterrupt, SystemExit, MemoryError):
+        raise
+    except BaseException:
+        return None
+    if isinstance(res, bytearray) and op.get("damage"):  # the caller owns what it got back
+        for i in range(len(res)):
+            res[i] ^= 0xFF
+    return res
+
+
+def _op_stim(a):
+    rs_run_stim(bytes.fromhex(a["msg"]), bytes.fromhex(a["mask"]), a["op"])
+
+
+PRELUDE_OPS = {"stim": _op_stim}
+
+
+def rs_random_stim(rng):
+    k = rng.choice(RS_STIM_KINDS + ["gen_bad_mask", "chk_bad_mask", "gen_bad_data", "chk_bad_data"])
+    op = {"k": k, "pos": rng.choice([0, 1, 2, 7, 8, 9, 11, rng.randrange(256)]), "damage": rng.random() < 0.3}
+    op["how"] = rng.choice({
+        "gen_bad_mask": _BAD_MASKS, "chk_bad_mask": _BAD_MASKS, "gen_bad_data": _BAD_DATA, "chk_bad_data": _BAD_WORD, "chk_false": ["errors", "other_mask"], "chk_true": ["bytes", "bytearray"],
+        "gen_twin": RS_TWIN_KINDS + ["other_mask"], "mul_bad": _MUL_BAD, "xor_bad": _XOR_BAD,
+    }[k])
+    return op
+
+
+def _case_values(case, rng):
+    """(message, mask) a case is about, as hex - for deriving related stimulus"""
+    msg, mask = None, None
+    if isinstance(case, dict):
+        mask = case.get("mask") if isinstance(case.get("mask"), str) and len(case.get("mask")) == 6 else None
+        if isinstance(case.get("msg"), str) and len(case["msg"]) == 18:
+            msg = case["msg"]
+        elif isinstance(case.get("msgs"), list) and case["msgs"]:
+            msg = rng.choice(case["msgs"])
+            mask = rng.choice(case["masks"]) if case.get("masks") else mask
+        elif isinstance(case.get("word"), str) and len(case["word"]) == 24:
+            msg = case["word"][:18]
+        elif isinstance(case.get("a"), str) and len(case["a"]) == 18:
+            msg = rng.choice([case["a"], case.get("b", case["a"])])
+        elif "i" in case and "vi" in case and "j" in case:
+            m = bytearray(9)
+            m[case["i"]], m[case["j"]] = case["vi"], rng.randrange(1, 256)
+            msg = bytes(m).hex()
+        elif isinstance(case.get("a"), int) and isinstance(case.get("b"), int):
+            m = bytearray(9)
+            m[rng.randrange(9)], m[rng.randrange(9)] = case["a"] & 0xFF, case["b"] & 0xFF
+            msg = bytes(m).hex()
+    if msg is None or len(msg) != 18:
+        msg = "%018x" % rng.getrandbits(72)
+    if mask is None:
+        mask = rng.choice(sorted(STD_MASKS.values()))
+    return msg, mask
+
+
+def prelude_for(sub, case, rng):
+    """refused / negative / out-of-domain calls and near twins of the case's own message and mask"""
+    msg, mask = _case_values(case, rng)
+    return [{"x": "stim", "a": {"msg": msg, "mask": mask, "op": rs_random_stim(rng)}} for _ in range(3)]
+
+
+def oracle_interleaved(case):
+    """case = {msgs: [hex18...], masks: [hex6...], ops: [op...]}; op = {k: "gen", i, m, rep, mrep} | {k: "chk", i, m, m2, err: [[pos, v]...],
+    rep, mrep} | {k: "mul", a, b} | stimulus {k: one of RS_STIM_KINDS, i, m, how, pos}.  Judged against vp/refs/gf256.py: every gen
+    (message first, zero syndromes with the mask removed = the reference word), every chk (True exactly for zero-syndrome words),
+    every mul.  Results of judged generate calls are retained and compared at the end; every (message, mask) pair used is
+    generated and checked once more after the last operation."""
+    msgs = [bytes.fromhex(x) for x in case["msgs"]]
+    masks = [bytes.fromhex(x) for x in case["masks"]]
+    kept, used = [], []
+
+    def gen(msg, mask, rep, mrep, where):
+        d, k = _octets(msg, rep), _octets(mask, mrep)
+        got = call(RS().generate, d, k)[1]
+        if not isinstance(got, (bytes, bytearray)) or len(got) != 12:
+            raise Fail("generate_returns_12_octets", repr(got), "12 octets", where)
+        if bytes(d) != msg or bytes(k) != mask:
+            raise Fail("input_not_mutated", [bytes(d).hex(), bytes(k).hex()], [msg.hex(), mask.hex()], where)
+        word = bytes(got)
+        if word[:9] != msg:
+            raise Fail("message_octets_first_unchanged", word[:9].hex(), msg.hex(), where)
+        syn = gf256.syndromes(gf256.unmask(word, mask))
+        if syn != [0, 0, 0]:
+            raise Fail("zero_syndromes_with_mask_removed", {"word": word.hex(), "syndromes": syn}, {"word": bytes(gf256.rs_encode(list(msg), list(mask))).hex(), "syndromes": [0, 0, 0]}, where)
+        kept.append((got, word))
+        if (msg, mask) not in used:
+            used.append((msg, mask))
+        return word
+
+    def chk(word, mask, rep, mrep, where):
+        exp = gf256.is_codeword(list(word), list(mask))
+        w = _octets(word, rep)
+        ok = call(RS().check, w, _octets(mask, mrep))[1]
+        if bytes(w) != word:
+            raise Fail("input_not_mutated", bytes(w).hex(), word.hex(), where)
+        if ok is not exp:
+            raise Fail("checker_accepts_exactly_zero_syndrome_words", {"word": word.hex(), "mask": mask.hex(), "check": ok}, {"check": exp}, ("rejects_codeword" if exp else "accepts_non_codeword") + ":" + where)
+
+    for op in case["ops"]:
+        k = op["k"]
+        msg = msgs[op.get("i", 0) % len(msgs)]
+        mask = masks[op.get("m", 0) % len(masks)]
+        if k == "gen":
+            gen(msg, mask, op.get("rep", "bytes"), op.get("mrep", "bytes"), "op_gen")
+        elif k == "chk":
+            w = bytearray(gf256.rs_encode(list(msg), list(mask)))
+            for p, v in op.get("err", []):
+                w[p % 12] ^= v & 0xFF
+            chk(bytes(w), masks[op.get("m2", op.get("m", 0)) % len(masks)], op.get("rep", "bytes"), op.get("mrep", "bytes"), "op_chk")
+            if (msg, mask) not in used:
+                used.append((msg, mask))
+        elif k == "mul":
+            oracle_multiply({"a": op["a"], "b": op["b"]})
+        else:
+            rs_run_stim(msg, mask, op)
+    for obj, snap in kept:
+        if bytes(obj) != snap:
+            raise Fail("earlier_result_unchanged_by_later_calls", bytes(obj).hex(), snap.hex())
+    for msg, mask in list(used):
+        word = gen(msg, mask, "bytes", "bytes", "at_end_of_history")
+        chk(word, mask, "bytes", "bytes", "at_end_of_history")
+
+
+def _rs_stim_catalogue():
+    out = []
+    for how in _BAD_MASKS:
+        out.append({"k": "gen_bad_mask", "how": how})
+        out.append({"k": "chk_bad_mask", "how": how})
+    for how in _BAD_DATA:
+        for pos in ((0, 4, 8) if how.startswith("list_") else (0,)):
+            out.append({"k": "gen_bad_data", "how": how, "pos": pos})
+    for how in _BAD_WORD:
+        for pos in ((0, 8, 9, 11) if how.startswith("list_") else (0,)):
+            out.append({"k": "chk_bad_data", "how": how, "pos": pos})
+    for pos in (0, 1, 2, 9, 10, 11):
+        out.append({"k": "chk_false", "how": "errors", "pos": pos})
+    out.append({"k": "chk_false", "how": "other_mask", "pos": 0})
+    out.append({"k": "chk_false", "how": "other_mask", "pos": 254})
+    out += [{"k": "chk_true", "how": "bytes"}, {"k": "chk_true", "how": "bytearray", "damage": True}]
+    for how in RS_TWIN_KINDS + ["other_mask"]:
+        out.append({"k": "gen_twin", "how": how, "pos": 3})
+    for how in _MUL_BAD:
+        out.append({"k": "mul_bad", "how": how, "pos": 2})
+    for how in _XOR_BAD:
+        out.append({"k": "xor_bad", "how": how})
+    return out
+
+
+def drv_interleaved(ctx: Ctx, sub: SubCheck):
+    rng = ctx.rng("interleaved")
+    std = sorted(STD_MASKS.values())
+    judged = [
+        {"k": "gen"}, {"k": "gen", "rep": "bytearray", "mrep": "memoryview"}, {"k": "chk", "err": []}, {"k": "chk", "err": [[10, 1]]}, {"k": "chk", "err": [], "m2": 1},
+        {"k": "chk", "err": [], "rep": "bytearray", "mrep": "bytearray"}, {"k": "mul", "a": 0x53, "b": 0xCA},
+    ]
+
+    def rnd_msg(r):
+        x = r.random()
+        if x < 0.6:
+            return bytes(r.getrandbits(8) for _ in range(9))
+        m = bytearray(9)
+        for _ in range(r.randrange(0, 4)):
+            m[r.randrange(9)] = r.randrange(1, 256)
+        return bytes(m)
+
+    det = []
+    for stim in _rs_stim_catalogue():
+        m0 = rnd_msg(rng)
+        tw = rs_twin(m0, rng.choice(RS_TWIN_KINDS[1:]), rng.randrange(256))
+        mk = [std[rng.randrange(1, 3)], rng.choice([std[0], "%06x" % rng.getrandbits(24)])]
+        for j in judged:
+            det.append({"msgs": [m0.hex(), tw.hex()], "masks": mk, "ops": [dict(j, i=0, m=0), dict(stim, i=0, m=0), dict(j, i=0, m=0)]})
+        det.append({"msgs": [m0.hex(), tw.hex()], "masks": mk, "ops": [dict(judged[0], i=0, m=0), dict(stim, i=1, m=1), dict(judged[2], i=0, m=0), dict(stim, i=0, m=0), dict(judged[0], i=1, m=0)]})
+        det.append({"msgs": [m0.hex(), tw.hex()], "masks": mk, "ops": [dict(stim, i=0, m=0), dict(judged[0], i=1, m=1)]})
+        det.append({"msgs": [m0.hex(), tw.hex()], "masks": mk, "ops": [dict(stim, i=0, m=0), dict(judged[2], i=0, m=0)]})
+    # near twins generated / checked alternately: every twin kind x same / other mask
+    for kind in RS_TWIN_KINDS:
+        for pos in (0, 3, 8, 200):
+            m0 = rnd_msg(rng)
+            tw = rs_twin(m0, kind, pos)
+            mk = [std[1 + pos % 2], std[2 - pos % 2], std[0]]
+            det.append({"msgs": [m0.hex(), tw.hex()], "masks": mk, "ops": [{"k": "gen", "i": 0, "m": 0}, {"k": "gen", "i": 1, "m": 0}, {"k": "gen", "i": 0, "m": 1}, {"k": "chk", "i": 0, "m": 0, "err": []},
+                                                                                   {"k": "chk", "i": 1, "m": 0, "m2": 1, "err": []}, {"k": "chk", "i": 1, "m": 1, "err": []}, {"k": "gen", "i": 1, "m": 2, "rep": "bytearray"}, {"k": "gen", "i": 0, "m": 0}]})
+    chunks = [det[i::16] for i in range(16)]
+
+    def is_judged(o):
+        return o["k"] in ("gen", "chk", "mul")
+
+    def cls_of(c):
+        ks = [o["k"] for o in c["ops"] if not is_judged(o)]
+        return "stimulus_" + ks[0] if ks else "judged_only"
+
+    def nontriv(c):
+        ks = [is_judged(o) for o in c["ops"]]
+        return (False in ks and True in ks[ks.index(False):]) or len(set(c["msgs"])) > 1
+
+    def random_history(r):
+        m0, m1 = rnd_msg(r), rnd_msg(r)
+        ops = []
+        for _ in range(r.randrange(2, 10)):
+            i, m, x = r.randrange(3), r.randrange(3), r.random()
+            if x < 0.25:
+                ops.append({"k": "gen", "i": i, "m": m, "rep": r.choice(DATA_REPS), "mrep": r.choice(MASK_REPS)})
+            elif x < 0.45:
+                err = [[r.randrange(12), r.randrange(1, 256)] for _ in range(r.choice([0, 0, 1, 1, 2, 3, 4]))]
+                ops.append({"k": "chk", "i": i, "m": m, "m2": r.choice([m, m, r.randrange(3)]), "err": err, "rep": r.choice(DATA_REPS), "mrep": r.choice(MASK_REPS)})
+            elif x < 0.5:
+                ops.append({"k": "mul", "a": r.randrange(256), "b": r.randrange(256)})
+            else:
+                ops.append(dict(rs_random_stim(r), i=i, m=m))
+        return {"msgs": [m0.hex(), rs_twin(m0, r.choice(RS_TWIN_KINDS), r.randrange(256)).hex(), m1.hex()], "masks": [r.choice(std[1:]), r.choice(std), "%06x" % r.getrandbits(24)], "ops": ops}
+
+    n_random = ctx.pick(80, 1500)
+
+    def work(item, t: Tally):
+        r = ctx.rng("interleaved-random", item)
+        todo = [(c, None) for c in chunks[item]] + [(random_history(r), True) for _ in range(n_random)]
+        for n, (c, keyed) in enumerate(todo):
+            if not ctx.run_case(sub.name, oracle_interleaved, c, t):
+                # what a failing history left behind in this process may taint the next ones: report this one (it replays in a
+                # fresh interpreter) and stop this worker
+                t.excluded["histories not run after a failing history in the same worker"] += len(todo) - n - 1
+                break
+            t.case(sub.name, key=c if keyed else None, nontrivial=nontriv(c), cls=cls_of(c))
+        if chunks[item]:
+            t.sample(sub.name, chunks[item][0])
+
+    ctx.shards(work, list(range(16)))
+    ctx.tally.extra["interleaved_directed_histories"] = len(det)
+    ctx.tally.notes.append(f"interleaved: {len(det)} directed histories (every refusable / negative / out-of-domain call shape of reed_solomon_12_9_4.py between two judged operations on the same message and mask, on a near twin, and first in the history) + 16 x {n_random} seeded random histories of 2..9 operations over a message, its near twin and a third message under three masks")
+
+
+
 SUBCHECKS = [
     SubCheck("multiply", oracle_multiply, drv_multiply, "all 65536 products == shift-and-add GF(2^8) modulo 0x11D"),
     SubCheck("generate_basis", oracle_generate, drv_generate_basis, "zero + all 9x255 single-symbol messages x 3 masks: systematic, zero syndromes, accepted"),
@@ -575,5 +930,6 @@ SUBCHECKS = [
     SubCheck("fault_double", oracle_fault, drv_fault_double, "double-symbol errors (complete for one codeword in thorough) rejected"),
     SubCheck("fault_triple", oracle_fault, drv_fault_triple, "sampled triple-symbol errors rejected"),
     SubCheck("mask_change", oracle_mask_change, drv_mask_change, "a generated word is rejected under any other mask"),
+    SubCheck("interleaved", oracle_interleaved, drv_interleaved, "histories: judged generate / check / multiply with rightly refused calls (unusable mask, wrong length or type, list message out of range at position k), rightly negative checks, out-of-domain arguments and near twins in between; earlier results re-inspected and every pair re-judged at the end"),
 ]
 PREDICATES = {}
